@@ -22,6 +22,7 @@ theorem inv_step (s s' : St) (e : Ev) (h : Inv s) (hs : step s e = some s') : In
   | rel a c nw e => exact inv_stepRel s s' a c nw e h hs
   | reinit n rc => exact inv_stepReinit s s' n rc h hs
   | obsLock v => simp only [step] at hs; split at hs <;> simp_all
+  | obs c nw => simp only [step] at hs; split at hs <;> simp_all
 
 /-- every reachable state satisfies the invariant -/
 theorem inv_reachable (k : Actor → Kind) (n : Nat) (hn : 0 < n) (s : St) (h : (machine k n).Reachable s) : Inv s :=
